@@ -96,9 +96,10 @@ class HostKeys(MutableMapping):
                 except SSHException:
                     continue
                 if entry is not None:
-                    _hostnames = entry.hostnames
-                    for h in _hostnames:
-                        if self.check(h, entry.key):
+                    # Iterate over a copy: names are removed from
+                    # entry.hostnames while looping.
+                    for h in list(entry.hostnames):
+                        if self._has_entry(h, entry.key):
                             entry.hostnames.remove(h)
                     if len(entry.hostnames):
                         self._entries.append(entry)
@@ -201,6 +202,22 @@ class HostKeys(MutableMapping):
                 or h.startswith("|1|")
                 and not hostname.startswith("|1|")
                 and constant_time_bytes_eq(self.hash_host(hostname, h), h)
+            ):
+                return True
+        return False
+
+    def _has_entry(self, hostname, key):
+        """
+        Tests whether some entry (not only the first one of its key type)
+        already associates exactly ``key`` with ``hostname``.
+
+        :returns bool:
+        """
+        for e in self._entries:
+            if (
+                e.key is not None
+                and self._hostname_matches(hostname, e)
+                and e.key.asbytes() == key.asbytes()
             ):
                 return True
         return False
